@@ -14,7 +14,7 @@ git -C /repo checkout -- .
 git -C /verif checkout -- evidence 2>/dev/null   # evidence written under a seeded change is not kept
 echo "demo clean=$clean mutated=$mut ; suite: $suite ; check VIOLATION lines=$rc"
 echo "$out" | grep -v "^KNOWN" | tail -6
-n=$(ls -d /verif/seeded/$pid-* 2>/dev/null | wc -l); n=$((n+1))
+n=$(ls -d /verif/seeded/$pid-* 2>/dev/null | sed "s/.*-//" | sort -n | tail -1); n=$(( ${n:-0} + 1 ))
 d=/verif/seeded/$pid-$n; mkdir -p $d
 cp $diff $d/patch.diff; cp $demo $d/demo.py
 /venv/bin/python - "$wt/meta$i.json" "$d/meta.json" "$clean" "$mut" "$rc" "$out" "$suite" <<'PY'
